@@ -10,6 +10,12 @@
 //!   scopes: 0 = ALL_SCOPES_NOTIFICATION, 1 = DEFAULT_SCOPE, n>=2 = a scope private to the case;
 //!   groups: private to the case; actors: 1..4 local ids, 101.. remote ids (spawn_linked_remote).
 //!   Every actor logs the `SupervisionEvent::ProcessGroupChanged` it handles.
+//!   race <setup ops> | <step> | <step> ...      (E2-lite: real micro-interleavings via pg::verif::point)
+//!     start <T> <op> [@<point>]   run <op> on a new OS thread named T; with @point: wait until T is parked
+//!                                 at the first hit of that hook point (or finished); without: wait for its end.
+//!                                 Here `x <a>` = pg::verif::publish_stopping (the exit path of set_status).
+//!     go <T>                      release T and wait until it finishes
+//!   output: [view after setup; view at the end] (events of the whole race in the last view)
 //! stdout: one Coq term per case: a list of `mkView ...` (one per op), see coq/Pg/Model.v.
 //!
 //! pg state is process-global: every case uses fresh actors and fresh scope/group names and
@@ -85,6 +91,7 @@ const GROUPS: [u64; 3] = [1, 2, 3];
 const LOCALS: [u64; 4] = [1, 2, 3, 4];
 const REMOTES: [u64; 2] = [101, 102];
 
+#[derive(Clone)]
 struct Case {
     tag: String,
     cells: HashMap<u64, ActorCell>,
@@ -247,11 +254,39 @@ fn view(c: &Case, events: &[Logged]) -> String {
     )
 }
 
+/// the synchronous pg operations (everything except real stop/kill)
+fn do_sync_op(c: &Case, w: &[&str]) {
+    match w[0] {
+        "j" => {
+            let acts = parse_actors(c, w[3]);
+            if u(w[1]) == 1 && u(w[2]) % 2 == 1 {
+                pg::join(c.group_name(u(w[2])), acts); // default-scope wrapper
+            } else {
+                pg::join_scoped(c.scope_name(u(w[1])), c.group_name(u(w[2])), acts);
+            }
+        }
+        "l" => {
+            let acts = parse_actors(c, w[3]);
+            if u(w[1]) == 1 && u(w[2]) % 2 == 1 {
+                pg::leave(c.group_name(u(w[2])), acts);
+            } else {
+                pg::leave_scoped(c.scope_name(u(w[1])), c.group_name(u(w[2])), acts);
+            }
+        }
+        "m" => pg::monitor(c.group_name(u(w[1])), c.cells[&u(w[2])].clone()),
+        "d" => pg::demonitor(c.group_name(u(w[1])), c.cells[&u(w[2])].get_id()),
+        "ms" => pg::monitor_scope(c.scope_name(u(w[1])), c.cells[&u(w[2])].clone()),
+        "ds" => pg::demonitor_scope(c.scope_name(u(w[1])), c.cells[&u(w[2])].get_id()),
+        other => panic!("unknown op {other}"),
+    }
+}
+
 async fn settle() {
     tokio::time::sleep(std::time::Duration::from_nanos(1)).await;
 }
 
-async fn run_seq(n: u64, rest: &str) -> String {
+async fn run_seq(n: u64, line: &str, race: bool) -> String {
+    let (rest, steps) = if race { line.split_once('|').unwrap_or((line, "")) } else { (line, "") };
     let tag = format!("c{}x{}", std::process::id(), n);
     let log: Log = Arc::new(Mutex::new(vec![]));
     let (root, root_h) = Actor::spawn(None, Root, ()).await.unwrap();
@@ -279,26 +314,6 @@ async fn run_seq(n: u64, rest: &str) -> String {
             continue;
         }
         match w[0] {
-            "j" => {
-                let acts = parse_actors(&c, w[3]);
-                if u(w[1]) == 1 && u(w[2]) % 2 == 1 {
-                    pg::join(c.group_name(u(w[2])), acts); // default-scope wrapper
-                } else {
-                    pg::join_scoped(c.scope_name(u(w[1])), c.group_name(u(w[2])), acts);
-                }
-            }
-            "l" => {
-                let acts = parse_actors(&c, w[3]);
-                if u(w[1]) == 1 && u(w[2]) % 2 == 1 {
-                    pg::leave(c.group_name(u(w[2])), acts);
-                } else {
-                    pg::leave_scoped(c.scope_name(u(w[1])), c.group_name(u(w[2])), acts);
-                }
-            }
-            "m" => pg::monitor(c.group_name(u(w[1])), c.cells[&u(w[2])].clone()),
-            "d" => pg::demonitor(c.group_name(u(w[1])), c.cells[&u(w[2])].get_id()),
-            "ms" => pg::monitor_scope(c.scope_name(u(w[1])), c.cells[&u(w[2])].clone()),
-            "ds" => pg::demonitor_scope(c.scope_name(u(w[1])), c.cells[&u(w[2])].get_id()),
             "x" | "k" => {
                 let a = u(w[1]);
                 if w[0] == "x" {
@@ -310,11 +325,21 @@ async fn run_seq(n: u64, rest: &str) -> String {
                     h.await.unwrap(); // wait() has returned
                 }
             }
-            other => panic!("unknown op {other}"),
+            _ => do_sync_op(&c, &w),
         }
         settle().await;
         let evs: Vec<Logged> = std::mem::take(&mut *log.lock().unwrap());
         outs.push(view(&c, &evs));
+    }
+    if race {
+        if outs.is_empty() {
+            outs.push(view(&c, &[]));
+        }
+        let first = outs.last().unwrap().clone();
+        run_race(&c, steps);
+        settle().await;
+        let evs: Vec<Logged> = std::mem::take(&mut *log.lock().unwrap());
+        outs = vec![first, view(&c, &evs)];
     }
     // end of case: stop everything, so that nothing of this case survives in the global state
     for cell in c.cells.values() {
@@ -329,6 +354,102 @@ async fn run_seq(n: u64, rest: &str) -> String {
     coq_list(&outs)
 }
 
+/// Controller for the hook points: a thread parks at the first hit of its point.
+#[derive(Default)]
+struct Ctl {
+    park_at: Mutex<HashMap<String, String>>, // thread name -> point
+    state: Mutex<HashMap<String, &'static str>>, // thread name -> "parked" | "go" | "done"
+    cv: std::sync::Condvar,
+}
+
+fn run_race(c: &Case, steps: &str) {
+    let ctl = Arc::new(Ctl::default());
+    let hook_ctl = ctl.clone();
+    pg::verif::set_point_hook(Some(Arc::new(move |name: &'static str| {
+        let tn = std::thread::current().name().unwrap_or("").to_string();
+        let hit = {
+            let mut p = hook_ctl.park_at.lock().unwrap();
+            if p.get(&tn).map(|x| x == name).unwrap_or(false) {
+                p.remove(&tn);
+                true
+            } else {
+                false
+            }
+        };
+        if hit {
+            let mut st = hook_ctl.state.lock().unwrap();
+            st.insert(tn.clone(), "parked");
+            hook_ctl.cv.notify_all();
+            while st.get(&tn) != Some(&"go") {
+                st = hook_ctl.cv.wait(st).unwrap();
+            }
+        }
+    })));
+    let mut threads: HashMap<String, std::thread::JoinHandle<()>> = HashMap::new();
+    for step in steps.split('|') {
+        let w: Vec<String> = step.split_whitespace().map(|x| x.to_string()).collect();
+        if w.is_empty() {
+            continue;
+        }
+        match w[0].as_str() {
+            "start" => {
+                let tn = w[1].clone();
+                let (opw, point): (Vec<String>, Option<String>) = match w.last() {
+                    Some(l) if l.starts_with('@') => (w[2..w.len() - 1].to_vec(), Some(l[1..].to_string())),
+                    _ => (w[2..].to_vec(), None),
+                };
+                if let Some(p) = &point {
+                    ctl.park_at.lock().unwrap().insert(tn.clone(), p.clone());
+                }
+                let cc = c.clone();
+                let tctl = ctl.clone();
+                let tn2 = tn.clone();
+                let h = std::thread::Builder::new()
+                    .name(tn.clone())
+                    .spawn(move || {
+                        let ws: Vec<&str> = opw.iter().map(|x| x.as_str()).collect();
+                        if ws[0] == "x" {
+                            pg::verif::publish_stopping(&cc.cells[&u(ws[1])]);
+                        } else {
+                            do_sync_op(&cc, &ws);
+                        }
+                        tctl.state.lock().unwrap().insert(tn2, "done");
+                        tctl.cv.notify_all();
+                    })
+                    .unwrap();
+                // wait until the thread is parked or done
+                let mut st = ctl.state.lock().unwrap();
+                while !matches!(st.get(&tn), Some(&"parked") | Some(&"done")) {
+                    st = ctl.cv.wait(st).unwrap();
+                }
+                if point.is_none() {
+                    assert_eq!(st.get(&tn), Some(&"done"));
+                }
+                drop(st);
+                threads.insert(tn, h);
+            }
+            "go" => {
+                let tn = w[1].clone();
+                {
+                    let mut st = ctl.state.lock().unwrap();
+                    if st.get(&tn) == Some(&"parked") {
+                        st.insert(tn.clone(), "go");
+                        ctl.cv.notify_all();
+                    }
+                }
+                if let Some(h) = threads.remove(&tn) {
+                    h.join().unwrap();
+                }
+            }
+            other => panic!("unknown race step {other}"),
+        }
+    }
+    for (_, h) in threads {
+        h.join().unwrap();
+    }
+    pg::verif::set_point_hook(None);
+}
+
 fn main() {
     let rt = tokio::runtime::Builder::new_current_thread().enable_time().start_paused(true).build().unwrap();
     rt.block_on(async {
@@ -337,7 +458,8 @@ fn main() {
             n += 1;
             let (kind, rest) = line.split_once(' ').unwrap_or((&line, ""));
             match kind {
-                "seq" => println!("{}", run_seq(n, rest).await),
+                "seq" => println!("{}", run_seq(n, rest, false).await),
+                "race" => println!("{}", run_seq(n, rest, true).await),
                 other => panic!("unknown case kind {other}"),
             }
         }
